@@ -762,13 +762,21 @@ impl Sim {
                     .chain(after.iter())
                     .any(|r| (r.expire as i64 - wall_after as i64).abs() <= 1);
         let msgtype = m.msg_type();
+        // the address the client names: ciaddr (renewing) or the requested-address option
+        // (selecting, rebooting, or a wish in a DISCOVER).  A message that carries both with
+        // *different* addresses names neither in particular (no client state of RFC 2131 fills
+        // in both; the statement does not say which would win): unconstrained.
+        let wished = match m.opt(wire::OPT_REQUESTED_IP) {
+            Some(v) if v.len() == 4 => Some(Ipv4Addr::new(v[0], v[1], v[2], v[3])),
+            _ => None,
+        };
         let named = if m.ciaddr != Ipv4Addr::UNSPECIFIED {
-            Some(m.ciaddr)
-        } else {
-            match m.opt(wire::OPT_REQUESTED_IP) {
-                Some(v) if v.len() == 4 => Some(Ipv4Addr::new(v[0], v[1], v[2], v[3])),
-                _ => None,
+            match wished {
+                Some(w) if w != m.ciaddr => None,
+                _ => Some(m.ciaddr),
             }
+        } else {
+            wished
         };
         MsgObs {
             client,
